@@ -22,12 +22,15 @@ from ..dump import dump_model
 from ..gen import gen_world, grammar, locate, walk_model
 from ..seams import SIMFS
 
-FAMILIES = ["plainuri", "fqnuri", "rrel", "plain", "fqn"]
-MULTIFILE = {"plainuri", "fqnuri", "rrel"}
+FAMILIES = ["plainuri", "fqnuri", "rrel", "plain", "fqn", "plaingr"]
+MULTIFILE = {"plainuri", "fqnuri", "rrel", "plaingr"}
 QUALIFIED = {"fqnuri", "rrel", "fqn"}
 
 
-def base_provider(family):
+def base_provider(family, root=None):
+    if family == "plaingr":
+        # every file of the episode's directory is visible from every model; the metamodel has a global repository
+        return sp.PlainNameGlobalRepo(root + "/*.m")
     if family == "plain":
         return sp.PlainName()
     if family == "fqn":
@@ -225,7 +228,8 @@ def run(ctx):
     same_world = t.chance(1, 2, "reload-the-same-files")  # identical allocation pattern: ids get recycled
     if nloads > 1 and same_world:
         nloads = 4 + t.draw(9, "nreloads")  # many identical reloads make id recycling (near) certain in any process
-    mm = metamodel_from_str(grammar(), textx_tools_support=tools, memoization=memo)
+    kw = {"global_repository": True} if family == "plaingr" else {}
+    mm = metamodel_from_str(grammar(), textx_tools_support=tools, memoization=memo, **kw)
     sigs = []
     samples = []
     nontrivial = False
@@ -262,7 +266,13 @@ def episode(ctx, t, prop, family, tools, memo, mm, rep):
     w = gen_world(t, root, nfiles=nfiles, qualified=family in QUALIFIED, max_refs=16,
                   alt_multipart=family == "rrel")  # FQN splits at '.', only RREL honours the match rule's split
     w.install(SIMFS)
-    closure = w.closure()
+    closure = w.closure() if family != "plaingr" else list(w.files)
+    # GlobalRepo family: the main text may be given as a string without a file name (then it is not a file at all)
+    anon = family == "plaingr" and nfiles > 1 and t.chance(1, 2, "anonymous-main")
+    if anon and any(r.owner.file != w.main and r.target.file == w.main for r in w.refs):
+        anon = False  # a string model is not among the pattern's files: nobody else can refer to its definitions
+    if anon:
+        del SIMFS.files[w.main]
     refs = [r for r in w.refs if r.owner.file in closure]
     if prop == "C09":
         mode = t.pick(["deps", "dag", "rounds", "deps"], "mode")
@@ -284,19 +294,26 @@ def episode(ctx, t, prop, family, tools, memo, mm, rep):
     }
 
     def build(scheduler):
-        m2 = metamodel_from_str(grammar(), textx_tools_support=tools, memoization=memo)
-        m2.register_scope_providers({"*.*": ScriptedProvider(base_provider(family), scheduler, ctx)})
+        m2 = metamodel_from_str(grammar(), textx_tools_support=tools, memoization=memo,
+                                **({"global_repository": True} if family == "plaingr" else {}))
+        m2.register_scope_providers({"*.*": ScriptedProvider(base_provider(family, root), scheduler, ctx)})
         return m2
 
+    def load(the_mm, scheduler):
+        scheduler.anon_file = w.main if anon else None
+        if anon:
+            return the_mm.model_from_str(w.files[w.main].text)
+        return the_mm.model_from_file(w.main)
+
     # the same metamodel serves every load of the run; only the provider (and its schedule) is re-registered
-    mm.register_scope_providers({"*.*": ScriptedProvider(base_provider(family), sched, ctx)})
+    mm.register_scope_providers({"*.*": ScriptedProvider(base_provider(family, root), sched, ctx)})
     fx = fixpoint(refs) if mode != "rounds" else {r.key for r in refs}
     expect_ok = len(fx) == N
     ctx.ev("world", family, mode, N, expect_ok)
     outcome = None
     model = None
     try:
-        model = mm.model_from_file(w.main)
+        model = load(mm, sched)
         outcome = "ok"
     except Budget as b:
         outcome = "budget"
@@ -344,6 +361,9 @@ def episode(ctx, t, prop, family, tools, memo, mm, rep):
 
     # ---------------- success path
     models = collect_models(model)
+    if anon:
+        models[w.main] = model
+        ctx.probe("anonymous-main-with-global-repository")
     for f in closure:
         if f not in models:
             ctx.violate("C09", "verdict", f"{family}/missing-model", f"no model for {f} after a successful load")
@@ -390,7 +410,7 @@ def episode(ctx, t, prop, family, tools, memo, mm, rep):
         ctx.ev("eager-reference")
         mm2 = build(eager)
         try:
-            m2 = mm2.model_from_file(w.main)
+            m2 = load(mm2, eager)
             d1 = dump_model(model, reflists_as_sets=True)
             d2 = dump_model(m2, reflists_as_sets=True)
             if d1 != d2:
@@ -402,7 +422,7 @@ def episode(ctx, t, prop, family, tools, memo, mm, rep):
     elif prop == "C08":
         ctx.nontrivial = sched.order_at_risk > 0
     if prop == "C34" or tools:
-        check_tools(ctx, w, models, closure, family, sched)
+        check_tools(ctx, w, models, closure, family, sched, w.main if anon else None)
     return True
 
 
@@ -646,7 +666,7 @@ def run_r2(ctx, t, prop, tools, memo):
             ctx.nontrivial = sched.postponements > 0
 
 
-def check_tools(ctx, w, models, closure, family, sched):
+def check_tools(ctx, w, models, closure, family, sched, anon_main=None):
     """C34: _pos_crossref_list and _pos_rule_dict of every model of the closure."""
     multi = False
     shared = False
@@ -678,7 +698,8 @@ def check_tools(ctx, w, models, closure, family, sched):
                             f"{r.key}: [{e.ref_pos_start}:{e.ref_pos_end}] = "
                             f"{text[e.ref_pos_start:e.ref_pos_end]!r}, reference text is {r.text!r}")
             tg = r.target
-            if e.def_file_name != tg.file or (e.def_pos_start, e.def_pos_end) != (tg.start, tg.stop):
+            tfile = None if tg.file == anon_main else tg.file  # a string model has no file name
+            if e.def_file_name != tfile or (e.def_pos_start, e.def_pos_end) != (tg.start, tg.stop):
                 ctx.violate("C34", "def-span", family,
                             f"{r.key}: definition {e.def_file_name}[{e.def_pos_start}:{e.def_pos_end}], "
                             f"target is {tg.file}[{tg.start}:{tg.stop}]")
